@@ -199,6 +199,22 @@ func checkOne(c *mc.Ctx, box orb.Bound, in orb.LineString, open bool) {
 	if full := sp[:cap(sp)]; len(full) > len(in) && (full[len(in)] != orb.Point{7e77, -7e77}) {
 		c.Failf("input-modified", "clipping wrote into the spare capacity behind the input line | %s", desc())
 	}
+	// the generic entry point (closed box only): the same pieces, a single piece unwrapped, nothing as nil. It may use
+	// its argument as scratch space, so it gets a copy of its own - and must not be confused by what it writes there
+	if !open {
+		g := clip.Geometry(box, orb.Geometry(append(orb.LineString(nil), in...)))
+		var wg orb.Geometry
+		switch len(got) {
+		case 0:
+		case 1:
+			wg = got[0]
+		default:
+			wg = got
+		}
+		if !refgeom.Equal(g, wg) && !(g == nil && wg == nil) {
+			c.Failf("generic", "clip.Geometry = %v, clip.LineString = %v | %s", g, got, desc())
+		}
+	}
 	want := reference(tb, in, open)
 	// flatten the output into its non-degenerate segments, remembering piece indices
 	type fs struct {
